@@ -210,6 +210,8 @@ class Acc:
         self.restarts = 0
         self.inconclusive = []
         self.per_group = {}
+        self.durations = {}   # group -> wall seconds of completed chunks (adaptive watchdog)
+        self.hangs = {}       # group -> confirmed hangs (watchdog expired twice)
 
 
 def parse_journal(path):
@@ -321,12 +323,32 @@ def run_child(exe, args, journal, timeout):
     return rc, err[-20000:]
 
 
+def effective_timeout(acc, group, timeout):
+    """The group's declared chunk watchdog, tightened once the group has shown how long its chunks take:
+    40x the median duration of its completed chunks (at least 120 s).  Budgets stay case counts; this only bounds
+    how long a non-terminating case can hold a run up."""
+    with acc.lock:
+        d = sorted(acc.durations.get(group, []))
+    if len(d) >= 3:
+        med = d[len(d) // 2]
+        return int(min(timeout, max(120.0, 40.0 * med)))
+    return timeout
+
+
 def run_chunk(exe, base_args, group, lo, hi, timeout, workdir, acc, tag):
     """run cases [lo,hi) of one group, restarting after aborts; fill acc"""
     start = lo
     attempt = 0
     hangs = 0
+    declared = timeout
     while start < hi:
+        with acc.lock:
+            if acc.hangs.get(group, 0) >= 2:
+                # two confirmed hangs already establish the violation: do not spend hours re-finding it
+                acc.tally["cases-not-run-after-two-confirmed-hangs-in-group"] = acc.tally.get("cases-not-run-after-two-confirmed-hangs-in-group", 0) + (hi - start)
+                return
+        timeout = effective_timeout(acc, group, declared)
+        t_start = time.time()
         attempt += 1
         journal = os.path.join(workdir, "%s.%s.%d.%d.j" % (tag, group, start, attempt))
         for f in (journal, journal + ".err"):
@@ -361,6 +383,8 @@ def run_chunk(exe, base_args, group, lo, hi, timeout, workdir, acc, tag):
                     acc.viol.append(dict(group=group, idx=c.idx, clause=cl, cls=cls, witness=wit,
                                          desc=c.desc, steps=c.steps))
         if finished and rc == 0:
+            with acc.lock:
+                acc.durations.setdefault(group, []).append(time.time() - t_start)
             os.remove(journal)
             os.remove(journal + ".err")
             return
@@ -382,6 +406,7 @@ def run_chunk(exe, base_args, group, lo, hi, timeout, workdir, acc, tag):
             if rc2 is None:
                 hangs += 1
                 with acc.lock:
+                    acc.hangs[group] = acc.hangs.get(group, 0) + 1
                     acc.evaluations += 1
                     for (cl, cls, wit) in c.viols:
                         acc.viol.append(dict(group=group, idx=c.idx, clause=cl, cls=cls, witness=wit, desc=c.desc, steps=c.steps))
@@ -546,8 +571,11 @@ def check(pid, tier, seed, only_group=None):
     extra_mod = post_hooks(pid)
     with ThreadPoolExecutor(max_workers=JOBS) as ex:
         futs = []
+        # quick-tier chunks are seconds of work: cap their watchdog so that a non-terminating change is reported in
+        # tens of minutes, not hours (the declared timeouts are sized for the thorough tier on a loaded machine)
+        cap = int(os.environ.get("VERIF_QUICK_WATCHDOG_CAP", "600")) if tier == "quick" else 10 ** 9
         for i, (g, lo, hi) in enumerate(tasks):
-            futs.append(ex.submit(run_chunk, exe, base_args, g["name"], lo, hi, g["timeout"], workdir, acc, "t%d" % i))
+            futs.append(ex.submit(run_chunk, exe, base_args, g["name"], lo, hi, min(g["timeout"], cap), workdir, acc, "t%d" % i))
         for f in futs:
             f.result()
     extra_cov = {}
